@@ -146,6 +146,10 @@ def run(tier):
     rep.cov["traces_validated_against_impl"] = len(accepted)
     for gi, fl in sorted(failures.items()):
         rep.violation(fl[0][1], {"record": recs[gi], "clauses": fl})
+    # the repopulation phases of the scripted runs of the real loop (repeated application across consecutive
+    # iterations; donor shortage must raise exactly when no cluster holds 2m points)
+    from .. import drv_scripts
+    drv_scripts.validate(rep, "C08", tier)
     dn = set()
     for r in recs:
         sb = tuple(r["before"].count(k) for k in range(r["K"]))
